@@ -152,6 +152,32 @@ def main(tier: str) -> int:
             chk.fail("tree equality is not structural", {"a": str(a), "b": str(b)}, {"fn": "__eq__"})
         add({"op": "t_eq", "a": sy.flat(a), "b": sy.flat(b)}, ("eq", {"a": str(a), "b": str(b)}, bool(a == b)))
 
+    # ---- ephemeral constants: a constant leaf prints the value it holds; equality distinguishes constants
+    from thefittest.base import EphemeralNode, FunctionalNode
+    consts = [0.1234564789, 0.1234561, 1e-9, 123456.7890123, -2.5, 7, 0.30000000000000004]
+    state = {"i": 0}
+
+    def gen_const():
+        v = consts[state["i"] % len(consts)]
+        state["i"] += 1
+        return v
+    eph = EphemeralNode(gen_const)
+    leaves = [Tree([eph()]) for _ in consts]
+    for v, t in zip(consts, leaves):
+        chk.count("ephemeral_constant")
+        chk.case(("const", v))
+        if t() != v or float(str(t)) != float(v):
+            chk.fail("a constant leaf does not print exactly the value it holds and evaluates to", {"value": repr(v), "printed": str(t), "evaluates_to": repr(t())}, {"fn": "__str__", "clause": "ephemeral"})
+    for i in range(len(consts)):
+        for j in range(len(consts)):
+            if (leaves[i] == leaves[j]) != (consts[i] == consts[j]):
+                chk.fail("tree equality does not distinguish trees holding different constants (not structural)",
+                         {"a": repr(consts[i]), "b": repr(consts[j]), "equal": bool(leaves[i] == leaves[j])}, {"fn": "__eq__", "clause": "ephemeral"})
+    add_op = [n for n in us._functional_set[2] if n._name == "add"][0]
+    tc = Tree([add_op, leaves[0]._nodes[0], us._terminal_set[0]])
+    if tc() != consts[0] + 3 or str(tc) != "({} + x0)".format(str(consts[0])):
+        chk.fail("a tree with an ephemeral constant does not print / evaluate the expression it denotes", {"printed": str(tc), "value": repr(tc())}, {"fn": "__str__", "clause": "ephemeral"})
+
     # ---- the symbolic-regression function table
     X = np.array([[0.5, -1.0], [2.0, 0.0], [0.0, 3.0], [-4.0, 1e-3]])
     accepted = []
